@@ -215,7 +215,7 @@ Workload GenerateWorkload(Rng rng, int size_class, int force_kind) {
       w.atts.push_back(d);
     }
   }
-  w.meta = r.Chance(1, 5) ? static_cast<int>(r.Range(1, 2)) : 0;
+  w.meta = r.Chance(1, 5) ? static_cast<int>(r.Range(1, 3)) : 0;
   w.expert = r.Chance(1, 3);
   if (r.Chance(3, 4)) {
     w.espeed = static_cast<int>(r.Range(0, 10));
@@ -698,6 +698,9 @@ std::unique_ptr<draco::PointCloud> BuildMesh(const Workload &w) {
   if (w.meta >= 2)
     for (size_t a = 0; a < ids.size(); a += 2)
       mb.AddAttributeMetadata(ids[a], MakeAttMetadata(&r));
+  // meta == 3: a second metadata block for the same attribute (two blocks with
+  // one attribute unique id, as repeated AddAttributeMetadata calls produce).
+  if (w.meta == 3) mb.AddAttributeMetadata(ids[0], MakeAttMetadata(&r));
   std::unique_ptr<draco::Mesh> mesh = mb.Finalize();
   return std::unique_ptr<draco::PointCloud>(mesh.release());
 }
@@ -749,6 +752,7 @@ std::unique_ptr<draco::PointCloud> BuildCloud(const Workload &w) {
   if (w.meta >= 2)
     for (size_t a = 0; a < ids.size(); a += 2)
       pb.AddAttributeMetadata(ids[a], MakeAttMetadata(&r));
+  if (w.meta == 3) pb.AddAttributeMetadata(ids[0], MakeAttMetadata(&r));
   std::unique_ptr<draco::PointCloud> pc = pb.Finalize(w.topo == 1);
   if (pc && w.meta == 1) pc->AddMetadata(MakeMetadata(&r));
   return pc;
